@@ -10,7 +10,7 @@ import time
 from . import tlc as T
 
 VERIF = T.VERIF
-EVID = os.path.join(VERIF, "evidence")
+EVID = os.path.join(T.SCRATCH or VERIF, "evidence")
 KNOWN = os.path.join(VERIF, "known_findings.json")
 LEVEL = "model_checking"
 
